@@ -278,6 +278,31 @@ Definition norm_frag (f : nfrag) : nfrag :=
   | _ => f
   end.
 
+(* ---- expressions that start with @ or with a fragment (as inside filters, or built without a
+   root): the first fragment is written without its dot (Append with first = true) and read by
+   nextFrag with first = true, which lets a token start the expression *)
+Inductive head : Set := HRoot | HAt | HNone.
+Definition print_first (fs : list nfrag) : bytes :=
+  match fs with
+  | NChild k :: r => (if token_ok k then k else print_frag (NChild k)) ++ print_frags r
+  | NWild true :: r => x2a :: print_frags r
+  | _ => print_frags fs
+  end.
+Definition print_path_h (h : head) (fs : list nfrag) : bytes :=
+  match h with
+  | HRoot => x24 :: print_frags fs
+  | HAt => x40 :: print_frags fs
+  | HNone => print_first fs
+  end.
+Definition parse_path_h (w : bytes) : option (head * list nfrag) :=
+  match w with
+  | b :: r =>
+      if beqb b x24 then match parse_frags (S (length r)) false r with Some fs => Some (HRoot, fs) | None => None end
+      else if beqb b x40 then match parse_frags (S (length r)) false r with Some fs => Some (HAt, fs) | None => None end
+      else match parse_frags (S (length w)) true w with Some fs => Some (HNone, fs) | None => None end
+  | [] => Some (HNone, [])
+  end.
+
 (* ---- printable forms for the correspondence run:  c<hex> | i<int>, space separated *)
 Definition show_frag (f : nfrag) : bytes :=
   match f with
@@ -291,5 +316,10 @@ Definition show_frag (f : nfrag) : bytes :=
   end.
 Fixpoint show_frags (fs : list nfrag) : bytes :=
   match fs with [] => [] | [f] => show_frag f | f :: r => show_frag f ++ x20 :: show_frags r end.
+Definition model_jpparse_h (w : bytes) : bytes :=
+  match parse_path_h w with
+  | None => [x2d]
+  | Some (h, fs) => x4f :: x20 :: (match h with HRoot => x24 | HAt => x40 | HNone => x2d end) :: x20 :: show_frags fs
+  end.
 Definition model_jpparse (w : bytes) : bytes :=
   match parse_path w with None => [x2d] | Some fs => x4f :: x20 :: show_frags fs end.
